@@ -39,12 +39,18 @@ QIODeviceCopierPrivate::QIODeviceCopierPrivate(QIODeviceCopier *copier, QIODevic
       dest(destDevice),
       bufferSize(DefaultBufferSize),
       rangeFrom(0),
-      rangeTo(-1)
+      rangeTo(-1),
+      stopped(false)
 {
 }
 
 void QIODeviceCopierPrivate::onReadyRead()
 {
+    // A call that was already queued when stop() was invoked must not copy
+    if (stopped) {
+        return;
+    }
+
     if (dest->write(src->readAll()) == -1) {
         Q_EMIT q->error(dest->errorString());
         src->close();
@@ -63,6 +69,11 @@ void QIODeviceCopierPrivate::onReadChannelFinished()
 
 void QIODeviceCopierPrivate::nextBlock()
 {
+    // A call that was already queued when stop() was invoked must not copy
+    if (stopped) {
+        return;
+    }
+
     // Attempt to read an amount of data up to the size of the buffer
     QByteArray data;
     data.resize(bufferSize);
@@ -119,6 +130,8 @@ void QIODeviceCopier::setRange(qint64 from, qint64 to)
 
 void QIODeviceCopier::start()
 {
+    d->stopped = false;
+
     if (!d->src->isOpen()) {
         if (!d->src->open(QIODevice::ReadOnly)) {
             Q_EMIT error(tr("Unable to open source device for reading"));
@@ -161,6 +174,8 @@ void QIODeviceCopier::start()
 
 void QIODeviceCopier::stop()
 {
+    d->stopped = true;
+
     disconnect(d->src, &QIODevice::readyRead, d, &QIODeviceCopierPrivate::onReadyRead);
     disconnect(d->src, &QIODevice::readChannelFinished, d, &QIODeviceCopierPrivate::onReadChannelFinished);
 
